@@ -170,8 +170,11 @@ def cutout_rules(repo, res):
                         'ApertureStats.centroid must re-base the cutout-relative centroid with the start of the overlap slices '
                         '(x: slc_large[1].start, y: slc_large[0].start); the aperture bounding-box origin is wrong for apertures '
                         'clipped at the left/bottom image edge', {}))
-    rets = [n for n in ast.walk(c.node) if isinstance(n, ast.Return)]
-    ok = len(rets) == 1 and nf(rets[0].value) == nf_text('self.cutout_centroid + origin')
+    from ..expr import Inliner
+    rets = Inliner(c.node).returns
+    want_ret = nf_text('self.cutout_centroid + np.array([(np.nan, np.nan) if slc_large is None else (slc_large[1].start, slc_large[0].start) '
+                       'for slc_large, _ in self._overlap_slices])')
+    ok = len(rets) == 1 and nf(rets[0][0]) == want_ret
     res.oblige('T-FRAME', 'centroid returns cutout_centroid + origin', ok, nontrivial=True)
     if not ok:
         res.add(Finding('T-FRAME', c.fullname, 'centroid return', c.loc, 'ApertureStats.centroid must return cutout_centroid + origin', {}))
